@@ -125,3 +125,23 @@ Fixpoint nats_eqb (a b : list nat) : bool :=
 Definition table_case (c : table unit * list nat * (nat * nat)) : bool :=
   let '(t, lens, (r, k)) := c in
   nats_eqb (get_table_lengths t) lens && Nat.eqb (rows (get_dim t)) r && Nat.eqb (columns (get_dim t)) k.
+
+(* ---- RTF info-group value (get_value from the captured text on) and _strip_rtf_simple:
+   (text, None = raised ValueError | Some result) *)
+From S2T Require Import C04.ModelRtfText.
+
+Definition info_case (spaces : list N) (decimals : list (N * N)) (azci : list N) (info_unicode rep : bool)
+    (c : str * option str) : bool :=
+  match info_value (decval_of decimals) (isspace_of spaces) (fun ch => memN ch azci) info_unicode rep (fst c), snd c with
+  | Ok v, Some w => str_eqb v w
+  | Raise _, None => true
+  | _, _ => false
+  end.
+
+Definition simple_case (spaces : list N) (decimals : list (N * N)) (azci : list N) (T : rtf_tables)
+    (c : str * option str) : bool :=
+  match strip_simple (decval_of decimals) (isspace_of spaces) (fun ch => memN ch azci) T (fst c), snd c with
+  | Ok v, Some w => str_eqb v w
+  | Raise _, None => true
+  | _, _ => false
+  end.
